@@ -303,7 +303,7 @@ def run(ck):
         ck.coverage["sources_by_kind"][s["kind"]] = ck.coverage["sources_by_kind"].get(s["kind"], 0) + 1
 
     # ---- phase Q: alone, no history, twice in a row -----------------------------------------------------------------
-    t_alone = 8 if quick else 150
+    t_alone = 12 if quick else 150
     groups = []
     small = [s for s in srcs if s["kind"].startswith("gen")]
     big = [s for s in srcs if not s["kind"].startswith("gen")]
